@@ -194,7 +194,7 @@ def lower_meminit(text, selfname='self'):
     """R12: a constructor's mem-initialiser list `a(e1), b(e2)` -> `self->a = e1; self->b = e2;`"""
     out = []
     for item in split_args(text):
-        m = re.match(r'^(\w+)\s*\((.*)\)$', item.strip(), re.S)
+        m = re.match(r'^(\w+)\s*\((.*)\)$', item.strip(), re.S) or re.match(r'^(\w+)\s*\{(.*)\}$', item.strip(), re.S)
         if not m:
             raise ExtractError('mem-initialiser not of the form name(expr): ' + item[:60])
         out.append('%s->%s = %s;' % (selfname, m.group(1), m.group(2).strip() or '0'))
